@@ -336,6 +336,31 @@ func usageLine(n *tnode, kinds []int) string {
 	return l
 }
 
+// hasUsageOf: the text contains a usage line of exactly this command ("Usage: <full path>" followed by
+// the end of the line or a blank, and not continuing with the name of one of its sub-commands).
+func hasUsageOf(text string, n *tnode) bool {
+	want := "Usage: " + n.path()
+	for _, l := range strings.Split(text, "\n") {
+		l = strings.TrimSpace(l)
+		if !strings.HasPrefix(l, want) {
+			continue
+		}
+		rest := l[len(want):]
+		if rest != "" && rest[0] != ' ' {
+			continue
+		}
+		deeper := false
+		f := strings.Fields(rest)
+		if len(f) > 0 && n.kid(f[0]) != nil {
+			deeper = true
+		}
+		if !deeper {
+			return true
+		}
+	}
+	return false
+}
+
 func hasLine(text, line string) bool {
 	for _, l := range strings.Split(text, "\n") {
 		if l == line {
